@@ -205,11 +205,18 @@ Proof.
   rewrite app_length, IH. simpl. lia.
 Qed.
 
+Lemma be_digits_step z : Z.shiftr z 8 = z / 256 /\ Z.land z 255 = z mod 256.
+Proof.
+  split.
+  - rewrite Z.shiftr_div_pow2 by lia. reflexivity.
+  - change 255 with (Z.ones 8). rewrite Z.land_ones by lia. reflexivity.
+Qed.
+
 Lemma be_val_digits len z : be_val 0 (be_digits len z) = z mod 256 ^ Z.of_nat len.
 Proof.
   revert z. induction len as [|k IH]; intros z.
   - simpl. rewrite Z.mod_1_r. reflexivity.
-  - cbn [be_digits]. rewrite be_val_app, IH. cbn [be_val].
+  - cbn [be_digits]. destruct (be_digits_step z) as [-> ->]. rewrite be_val_app, IH. cbn [be_val].
     rewrite byte_Z_Z_byte by (apply Z.mod_pos_bound; lia).
     rewrite pow256_S.
     rewrite (Z.rem_mul_r z 256 (256 ^ Z.of_nat k)) by (pose proof (pow256_pos k); lia).
